@@ -34,6 +34,14 @@
 (* carries.  An overriding handler here "marks": it returns its method     *)
 (* name applied to the mapped children (OwnBody), so that which body ran   *)
 (* is visible in the result.                                               *)
+(*                                                                         *)
+(* Round 5: "pident" is the STOCK identity mapper (IdentityMapper /        *)
+(* CachedIdentityMapper, no renaming): every leaf is itself, so the result *)
+(* of a node is the node - with EVERY FIELD it has (WithKids keeps prefix  *)
+(* and scope of a wrapper, the name of a lookup, the operator of a         *)
+(* comparison, the keyword names of a call).  Whether a handler hands back *)
+(* the node object itself or builds a new one is not part of the meaning;  *)
+(* it is part of the algorithm (C05_Rebuild).                              *)
 (***************************************************************************)
 EXTENDS C05_Keys
 
@@ -139,9 +147,10 @@ Leaves(rs) == LET RECURSIVE Go(_) Go(i) == IF i > Len(rs) THEN << >> ELSE rs[i].
               IN Go(1)
 \* the base class's handler for the node
 BaseCombine(mk, e, a, rs) ==
-    CASE mk.m \in {"ident", "subst"} ->
+    CASE mk.m \in {"ident", "subst", "pident"} ->
             IF e.t = "Var" THEN
                 (IF mk.m = "ident" THEN TreeR(RenamedLeaf(e, a))
+                 ELSE IF mk.m = "pident" THEN TreeR(e)     \* the stock IdentityMapper: a leaf is itself
                  ELSE IF e.name \in DOMAIN mk.map THEN TreeR(mk.map[e.name]) ELSE TreeR(e))
             ELSE IF e.t = "Const" THEN TreeR(e)
             \* a wrapper whose mapped child is false in Python collapses to the number 0
